@@ -24,20 +24,41 @@ Boundary configurations (own processes, a process stops at its first hung call):
 code as it is offers nothing, every answered call ends by its deadline), ClientWriteTimeout = 0, dial timeout 1 ms,
 ObjQueueMax 0 / 1, deadlines below 1 ms; in each the same goroutine calls again after its first call returned.
 Transparent client filters (pre, post, legacy, middleware; one process each) over silent / late / closing / refusing peers.
+Client filters that are NOT transparent (spec/ClientMux/ClientFilt.tla: the filter stage between preInvoke and postInvoke may end
+the call without invoking, override the outcome, invoke once more; MC_filt, MC_filt_timed, and MC_filt_kf_leak -- a rejected call
+that leaves before postInvoke -- which must violate NoResidue): every branch of the filter if-chain of TarsInvoke is driven
+(harness/cmd/muxdrive/faultfilter.go; processes fpre, fpost, flegacy, fmw) with filters that, per call, return an error before the
+call, return nil or an error without invoking at all, invoke and return an error of their own or nil whatever came of it, or
+invoke once more with the same message (pre / post filters: through the invoke function they are handed), over silent / late /
+closing / refusing / answering peers with 1..8 callers.  Every run is validated by TLC against Trace_ClientFilt (a call that
+never reached doInvoke is placed through FilterReject and postInvoke as the model has them); the pending-reply table, queueLen,
+endpointManager.invokeNum and connection.invokeNum read after the run are accepted as observed and judged by NoResidue.
+Whether an error of a pre / post filter ends the call is the framework's choice (the statement is silent): both are accepted, and
+what the code does is recorded as an observation.  A filter that panics cannot be driven: TarsInvoke's deferred CheckPanic turns
+any panic below it into os.Exit(-1) -- no call returns after that, the statement does not apply.
 """
 import json
 
 from concurrent.futures import ThreadPoolExecutor
 
+import os
+import re
+
 from checks import c08 as mux
-from lib import gobuild
-from lib.core import Inconclusive, sh
+from lib import gobuild, tlc, tracecheck
+from lib.core import Inconclusive, VERIF, sh
 
 C09_INV = ["NoResidue", "TDeadline", "AcctQueue", "AcctMgr", "AcctResp", "TimelyReply"]
 C09_CLASSES = ["never", "late", "mixed", "dup", "close", "badframe", "garbage", "refuse", "blackhole1", "blackholeK", "queuefull",
                "inorder", "giveup", "hol"]
 EDGE_CLASSES = ["edge-read0", "edge-write0", "edge-dial1", "edge-qmax0", "edge-qmax1", "edge-subms"]
 FILTER_CLASSES = ["never", "late", "close", "refuse", "inorder"]
+# client filters that are not transparent (one process per kind); what the stage does per call: harness/cmd/muxdrive/faultfilter.go
+FAULT_FILTERS = {"fpre": ["pass", "err", "invoke"], "fpost": ["pass", "err", "invoke"],
+                 "flegacy": ["pass", "err-before", "skip", "err-after", "again", "swallow"],
+                 "fmw": ["pass", "err-before", "skip", "err-after", "again", "swallow"]}
+FAULT_CLASSES = ["never", "late", "close", "refuse", "inorder"]
+C09F_INV = ["NoResidue", "TDeadlineF", "AcctQueue", "AcctMgr", "AcctResp", "TimelyReply"]
 TIMED = {"TDeadline", "TimelyReply"}      # verdicts that depend on recorded times: reported only if reproduced three times
 # connection.invokeNum (transport) is one of "the in-flight counters": a value other than 0 after quiescence is reported.
 TRANSPORT_INVOKENUM_IS_RESIDUE = True
@@ -98,6 +119,124 @@ def timeout_behind_stray(traces):
     return None
 
 
+# ------------------------------------------------------------------ runs with client filters that are not transparent
+def is_ff(t):
+    return t[0].get("flt") in FAULT_FILTERS
+
+
+def cfg_text_filt(nc, invariants):
+    t = open(os.path.join(VERIF, "spec", mux.SPEC, "TraceFilt.cfg.tmpl")).read().replace("@NC@", str(nc))
+    return re.sub(r"^INVARIANTS.*$", "INVARIANTS " + " ".join(invariants), t, flags=re.M)
+
+
+def bucket_filt(ctx, traces, name, timeout, max_failures=8):
+    """mux.bucket against Trace_ClientFilt."""
+    idx = list(range(len(traces)))
+    failures, states, trans, tinv, early = [], 0, 0, {}, {}
+    cfg = cfg_text_filt(max(mux.nc_of(t) for t in traces), C09F_INV)
+    while idx:
+        ok, bad, r = tracecheck.run_once(ctx, mux.SPEC, "Trace_ClientFilt", cfg, [traces[i] for i in idx], name, {"e": "End"}, timeout, None, False)
+        states += r.distinct
+        trans += r.generated
+        for m in re.finditer(r'<<"TINV", (-?\d+), (-?\d+), (-?\d+)>>', r.out):
+            tinv[int(m.group(1))] = (int(m.group(2)), int(m.group(3)))
+        for m in re.finditer(r'<<"EARLY", (-?\d+), (\d+), (\d+)>>', r.out):
+            early[int(m.group(1))] = (int(m.group(2)), int(m.group(3)))
+        if ok:
+            break
+        k, off, inv = bad
+        t = traces[idx[k]]
+        failures.append({"index": idx[k], "offset": off, "event": (t[off] if off < len(t) else {"e": "End"}),
+                         "invariant": ["TDeadline" if i == "TDeadlineF" else i for i in inv], "prefix": t[max(0, off - 6):off + 1]})
+        idx.pop(k)
+        if len(failures) >= max_failures:
+            break
+    return failures, {"states": states, "transitions": trans, "early": early}, tinv
+
+
+def validate_filt(ctx, traces, name, groups=3, timeout=1500):
+    """Like mux.validate: (failures, stats, tinv) for runs with a client filter that is not transparent."""
+    buckets = {}
+    for i, t in enumerate(traces):
+        buckets.setdefault(i % groups, []).append(t)
+    failures, st, tinv = [], {"states": 0, "transitions": 0, "early": {}}, {}
+    if not traces:
+        return failures, st, tinv
+    with ThreadPoolExecutor(max_workers=len(buckets)) as ex:
+        for ts, (fails, s, tv) in ex.map(lambda it: (it[1], bucket_filt(ctx, it[1], "%s-%d" % (name, it[0]), timeout)), list(buckets.items())):
+            st["states"] += s["states"]
+            st["transitions"] += s["transitions"]
+            st["early"].update(s["early"])
+            tinv.update(tv)
+            failures += [(ts[f["index"]], f) for f in fails]
+    return failures, st, tinv
+
+
+def stage_summary(traces):
+    """Per filter kind and action of the stage: how the calls ended as their callers saw it; plus what the traces show of each path."""
+    calls, paths = {}, {}
+    for t in traces:
+        flt = t[0]["flt"]
+        regs = {}
+        for e in t:
+            if e["e"] == "RegBegin":
+                regs[e["c"]] = regs.get(e["c"], 0) + 1
+        for e in t:
+            if e["e"] != "CallEnd":
+                continue
+            d = calls.setdefault(flt, {}).setdefault(e.get("fa", ""), {})
+            d[e["k"]] = d.get(e["k"], 0) + 1
+            n = regs.get(e["c"], 0)
+            path = ("ended-by-the-stage-without-invoking" if e["k"] == "filtered" and n == 0 else
+                    "outcome-overridden-after-invoking" if e["k"] == "filtered" else
+                    "invoked-%d-times" % n if n != 1 else "passed-through")
+            p = paths.setdefault(flt, {})
+            p[path] = p.get(path, 0) + 1
+    return calls, paths
+
+
+def require_stage_coverage(calls, paths):
+    """Vacuity guard: every action of every kind was taken, and the paths they are meant to reach were reached."""
+    for flt, acts in FAULT_FILTERS.items():
+        missing = [a for a in acts if not calls.get(flt, {}).get(a)]
+        if missing:
+            raise Inconclusive("client filter kind '%s': no call met the action(s) %s" % (flt, missing))
+        need = ["invoked-2-times"] + (["ended-by-the-stage-without-invoking", "outcome-overridden-after-invoking"] if flt in ("flegacy", "fmw") else [])
+        gone = [p for p in need if not paths.get(flt, {}).get(p)]
+        if gone:
+            raise Inconclusive("client filter kind '%s': no call took the path(s) %s" % (flt, gone))
+
+
+def selftests_filt(ctx, traces):
+    """Corrupted copies of an accepted run in which the stage ended a call without invoking must be rejected."""
+    base = None
+    for t in traces:
+        regs = {e["c"] for e in t if e["e"] == "RegBegin"}
+        ended = [e for e in t if e["e"] == "CallEnd" and e["k"] == "filtered" and e["c"] not in regs]
+        if ended and t[-1]["e"] == "Quiesce" and t[-1]["mgr"] == 0:
+            base, end = t, ended[0]
+            break
+    if base is None:
+        raise Inconclusive("no run suitable for the binding self-test of the filter stage")
+    cases = {
+        "rejected-call-leaves-manager-invokeNum-1": (base[:-1] + [dict(base[-1], mgr=1)], "NoResidue"),
+        "callend-of-the-rejected-call-dropped": ([e for e in base if e is not end], None),
+    }
+
+    def one(item):
+        n, (t, want) = item
+        fails, _, _ = bucket_filt(ctx, [t], "stf-" + re.sub(r"[^a-z0-9]+", "-", n)[:24], 300)
+        if not fails:
+            raise Inconclusive("binding self-test failed: corrupted trace '%s' was accepted" % n)
+        inv = fails[0]["invariant"]
+        if want and want not in inv:
+            raise Inconclusive("binding self-test '%s': rejected, but by %s instead of %s" % (n, inv, want))
+        return n, "rejected" + (":" + inv[0] if inv else ":no-step-for:" + str(fails[0]["event"].get("e")))
+
+    with ThreadPoolExecutor(max_workers=len(cases)) as ex:
+        return dict(ex.map(one, cases.items()))
+
+
 def selftests_c09(ctx, traces):
     base = None
     for t in traces:
@@ -133,39 +272,65 @@ def run(ctx):
         "quiescence = every call returned, the peer finished its script, every receiver goroutine finished (waited for, not assumed)",
     ]
     quick = ctx.quick
+    # the timing wheel behind the read / write timeouts (spec/TimeWheel, checks/timewheel.py) runs alongside
+    from checks import timewheel
+    twex = ThreadPoolExecutor(max_workers=1)
+    twf = twex.submit(timewheel.run, ctx, "C09")
     clean = (["c09_ideal", "residue", "transport_polite", "c09_read0", "c09_dup"] if quick else
              ["c09_ideal_t", "residue_t", "residue", "transport_polite", "c09_read0", "c09_read0_t", "c09_dup", "c09_dup_t"])
     kf = {"c09_kf_serialdial": "DeadlineInv", "transport_kf": "TransportBack", "c09_kf_inline": "ReplyInTime"}
+    fclean = ["filt", "filt_timed"] if quick else ["filt_t", "filt_timed_t"]
     with ThreadPoolExecutor(max_workers=4) as mcex:
         futs = mux.start_mc(ctx, mcex, clean + list(kf), workers=ctx.pick(2, 4), timeout=ctx.pick(300, 840))
+        kf["filt_kf_leak"] = "NoResidue"
+        for c in fclean + ["filt_kf_leak"]:     # the filter stage (ClientFilt)
+            futs[c] = mcex.submit(tlc.run, ctx, mux.SPEC, "MC_ClientFilt", cfg="MC_%s.cfg" % c, workers=ctx.pick(2, 4),
+                                  timeout=ctx.pick(300, 840), name="mc-" + c)
         exe = gobuild.build(ctx, "muxdrive")
         rc, so, se = sh([exe, "probe"], timeout=60)
         blackhole = "blackhole: ok" in so
         classes = [c for c in C09_CLASSES if blackhole or not c.startswith("blackhole")]
         per, maxk, shards = ctx.pick(5, 30), ctx.pick(32, 128), ctx.pick(8, 10)
         ctx.log("harness built; blackhole available: %s" % blackhole)
-        with ThreadPoolExecutor(max_workers=3) as dex:
+        with ThreadPoolExecutor(max_workers=4) as dex:
+            fx = dex.submit(mux.drive, ctx, exe, FAULT_CLASSES, ctx.pick(3, 8), 8, 1, "c09ff", False, list(FAULT_FILTERS), False, 300000)
             fe = dex.submit(mux.drive, ctx, exe, EDGE_CLASSES, ctx.pick(2, 10), 8, ctx.pick(3, 6), "c09edge", False, None, True, 200000)
             ff = dex.submit(mux.drive, ctx, exe, FILTER_CLASSES, ctx.pick(1, 4), 8, 1, "c09flt", False, mux.FILTERS, False, 100000)
             traces, hits = mux.drive(ctx, exe, classes, per, maxk, shards, "c09")
             etraces, _ = fe.result()
             ftraces, fhits = ff.result()
+            xtraces, xhits = fx.result()
         traces += etraces + ftraces
-        hits.update({k: v for k, v in fhits.items() if k.startswith("filter:")})
-        ctx.log("%d runs recorded (%d in boundary configurations, %d with a client filter)" % (len(traces), len(etraces), len(ftraces)))
+        hits.update({k: v for k, v in list(fhits.items()) + list(xhits.items()) if k.startswith("filter:")})
+        ctx.log("%d runs recorded (%d in boundary configurations, %d with a transparent client filter, %d with one that is not)"
+                % (len(traces) + len(xtraces), len(etraces), len(ftraces), len(xtraces)))
+        stage_calls, stage_paths = stage_summary(xtraces)
         bh = [t for t in traces if t[0]["cls"] == "blackholeK"]
         rest = [t for t in traces if t[0]["cls"] != "blackholeK"]
-        with ThreadPoolExecutor(max_workers=2) as ex:
+        with ThreadPoolExecutor(max_workers=3) as ex:
             f1 = ex.submit(mux.validate, ctx, rest, C09_INV, "c09", ctx.pick(3, 6))
             f2 = ex.submit(mux.validate, ctx, bh, C09_INV, "c09bh", 1, 1500, True)
+            f3 = ex.submit(validate_filt, ctx, xtraces, "c09ff", ctx.pick(3, 6))
             failures, st, tinv = f1.result()
             fb, stb, tinvb = f2.result()
-        failures += fb
+            fx_, stx, tinvx = f3.result()
+        failures += fb + fx_
         tinv.update(tinvb)
+        tinv.update(tinvx)
         early = dict(st["early"], **stb["early"])
+        early.update(stx["early"])
         ctx.log("traces validated: %d rejected" % len(failures))
         bad = {id(t) for t, _ in failures}
         selftest = selftests_c09(ctx, [t for t in traces if id(t) not in bad])
+        try:
+            selftest.update(selftests_filt(ctx, [t for t in xtraces if id(t) not in bad]))
+            require_stage_coverage(stage_calls, stage_paths)
+        except Inconclusive as e:
+            # a tree that breaks the property on these paths can also upset the self-test's base run: the verdict on the real runs comes first
+            if not fx_:
+                raise
+            selftest["filter-stage"] = "skipped: " + str(e)[:200]
+        traces += xtraces
         ctx.log("self-tests done")
         mc = mux.collect_mc(futs, kf)
         ctx.log("model checking done")
@@ -188,6 +353,22 @@ def run(ctx):
             sig = "C09:residue:%s:%s" % (which or "unknown", cls)
             what = "after quiescence of a '%s' run (%d callers): queueLen=%s endpointManager.invokeNum=%s pending entries=%s" % (
                 cls, cfg["k"], q.get("ql"), q.get("mgr"), q.get("pend"))
+            ended = [e for e in t if e["e"] == "CallEnd" and e["k"] == "filtered"]
+            if is_ff(t) and not ended:
+                what += "; what the client filter stage (%s) did per call and how the call ended for its caller: %s" % (
+                    cfg["flt"], sorted((e["c"], e["fa"], e["k"]) for e in t if e["e"] == "CallEnd"))
+            if is_ff(t) and ended:
+                # calls that the filter stage ended: the peer's behaviour is beside the point, the branch of the filter if-chain is not
+                regs = {e["c"] for e in t if e["e"] == "RegBegin"}
+                by = {}
+                for e in ended:
+                    key = "%s (%s)" % (e["fa"], "never invoked" if e["c"] not in regs else "after invoking")
+                    by[key] = by.get(key, 0) + 1
+                sig = "C09:residue:%s:call-ended-by-%s-filter" % (which or "unknown", cfg["flt"])
+                what += "; %d of the %d calls were ended by the client filter stage (%s; actions of the stage: %s), the others: %s" % (
+                    len(ended), cfg["k"], {"fpre": "RegisterPreClientFilter", "fpost": "RegisterPostClientFilter", "flegacy": "RegisterClientFilter",
+                                           "fmw": "UseClientFilterMiddleware"}[cfg["flt"]], by,
+                    sorted((e["fa"], e["k"]) for e in t if e["e"] == "CallEnd" and e["k"] != "filtered"))
         elif inv:
             sig = "C09:accounting:%s:%s" % (inv, cls)
             what = "run of class '%s' violates %s at event %s" % (cls, inv, json.dumps(f["event"]))
@@ -212,7 +393,7 @@ def run(ctx):
         inv = f["invariant"][0]
         with ThreadPoolExecutor(max_workers=3) as ex:
             again = list(ex.map(lambda i: mux.rerun_trace(ctx, exe, t, "c09-%d" % i), range(3)))
-        fa, _, _ = mux.validate(ctx, again, C09_INV, "c09rr", 1, 600, True)
+        fa, _, _ = validate_filt(ctx, again, "c09rr", 3, 600) if is_ff(t) else mux.validate(ctx, again, C09_INV, "c09rr", 1, 600, True)
         rej = sum(1 for _, f2 in fa if f2["invariant"] and f2["invariant"][0] == inv)
         worst = [max([e["ms"] for e in a if e["e"] == "CallEnd"] or [0]) for a in again]
         rerun_log[sig] = {"scenario": idx, "reproduced": rej, "of": 3, "slowest_call_ms": worst}
@@ -295,7 +476,18 @@ def run(ctx):
                          "connection that was closed meanwhile, or with ClientReadTimeout = 0 (the code as it is offers nothing then), or with no "
                          "stray packet ahead of the reply (statement silent): %d calls in scenarios %s"
                          % (sum(n - h for n, h in early.values()), sorted(early)[:10]))
+    # what the framework makes of an error returned by a pre / post client filter is its own choice (the statement is silent)
+    went_on = {flt: sum(n for k, n in stage_calls.get(flt, {}).get("err", {}).items() if k != "filtered") for flt in ("fpre", "fpost")}
+    stopped = {flt: stage_calls.get(flt, {}).get("err", {}).get("filtered", 0) for flt in ("fpre", "fpost")}
+    ctx.notes.append("an error returned by a pre / post client filter: the call went on to doInvoke and its caller got the outcome of the "
+                     "call in %s calls, the call was ended with the filter's error in %s calls (statement silent on which: both accepted)"
+                     % (went_on, stopped))
+    tw = twf.result()
+    twex.shutdown()
+    ctx.assumptions.append("timing wheel: After and the tick are recorded under tw.lock, the close after the unlock is the only "
+                           "unlogged step; a rejected run counts only when a second recording is rejected at the same kind of event")
     ctx.coverage = {
+        "timing_wheel": tw,
         "states": sum(v.get("distinct", 0) for v in mc.values()) + st["states"] + stb["states"],
         "transitions": sum(v.get("generated", 0) for v in mc.values()) + st["transitions"] + stb["transitions"],
         "traces_validated_against_impl": len(traces),
@@ -304,9 +496,16 @@ def run(ctx):
         "rule": "runs: %d scenarios of classes %s, 1..%d callers on one proxy, timeouts 50-300 ms (configured / per call / context deadline "
                 "shorter and longer); %d runs in boundary configurations %s (ClientReadTimeout 0, ClientWriteTimeout 0, dial timeout 1 ms, "
                 "ObjQueueMax 0/1, deadlines of 0.3 and 1 ms; the same goroutine calls again afterwards); %d runs with a transparent client "
-                "filter (%s) over %s; evaluations = calls judged against their deadline, for residue and for replies held up by stray "
+                "filter (%s) over %s; %d runs with a client filter that is not transparent (%s: per call an error before the call, nil / an "
+                "error without invoking, an error or nil of its own after invoking, invoking once more) over %s with 1..8 callers, validated "
+                "against Trace_ClientFilt; evaluations = calls judged against their deadline, for residue and for replies held up by stray "
                 "packets; distinct = distinct event orders"
-                % (len(traces), classes, maxk, len(etraces), EDGE_CLASSES, len(ftraces), mux.FILTERS, FILTER_CLASSES),
+                % (len(traces), classes, maxk, len(etraces), EDGE_CLASSES, len(ftraces), mux.FILTERS, FILTER_CLASSES, len(xtraces),
+                   sorted(FAULT_FILTERS), FAULT_CLASSES),
+        "filter_stage": {"runs": {f: sum(1 for t in xtraces if t[0]["flt"] == f) for f in FAULT_FILTERS},
+                         "calls_by_action_and_outcome": stage_calls, "paths_taken": stage_paths,
+                         "pre_post_filter_error": {"call_went_on": went_on, "call_ended_with_the_filters_error": stopped},
+                         "panicking_filter": "not driven: TarsInvoke's deferred CheckPanic exits the process"},
         "observations": {"timeouts_although_answered_250ms_early": {str(k): {"calls": v[0], "behind_a_stray_packet": v[1]} for k, v in
                                                                      sorted(early.items())[:20]},
                          "read_timeout_0_runs": sum(1 for t in etraces if t[0]["rt"] == 0)},
